@@ -285,6 +285,44 @@ def _cases_of(spec):
         yield from walk(m['tree'])
 
 
+@st.composite
+def procs_cases(draw):
+    """--buffer while the layers run in subprocesses (-j N, or resumed after a layer that cannot be torn down): a layer
+    subprocess has its sys.stderr joined to its stdout and keeps its real stderr for the report to the parent; the output
+    a failing test wrote to either stream still belongs into that test's report, and nowhere else"""
+    case = draw(cases().filter(lambda c: c['opts']['buffer']))
+    spec, opts = case['spec'], case['opts']
+    opts['xml'] = False
+    opts['repeat'] = 1
+    mode = draw(st.sampled_from(['j2', 'j3', 'resume']))
+    if mode == 'resume':
+        for L in spec['layers']:
+            L.setdefault('faults', {})['tearDown'] = 'NIE'
+    else:
+        opts['j'] = int(mode[1])
+    case['mode'] = mode
+    return case
+
+
+class Procs(Part):
+    name = 'procs'
+    examples = {'quick': 96, 'thorough': 2000}
+
+    def strategy(self, tier):
+        return procs_cases()
+
+    def execute(self, case):
+        spec = common.with_prefix(case['spec'])
+        opts = dict(case['opts'])
+        opts.pop('xml', None)
+        run = drive.run_inproc(spec, common.args_of(opts), disk=True)
+        viol, labels = oracle(spec, case['opts'], case['tokens'], run)
+        from .. import traceana
+        nchild = len(traceana.by_pid(run.trace)) - 1
+        shown = any(expectation(t) == SHOWN and t.get('acts') for _, t in gen.iter_tests(spec))
+        return Outcome(viol, labels + [case['mode'], 'children=%d' % min(nchild, 4)], nchild >= 1 and shown)
+
+
 class C13(Prop):
     id = 'C13'
     registered = True
@@ -304,7 +342,7 @@ class C13(Prop):
     assumptions = ('a token is "attributed" when the nearest preceding report header names its test and no layer '
                    'summary lies in between', 'output written after a test\'s first reported result is still that '
                    'test\'s output')
-    parts = (InProc(), PostMortem())
+    parts = (InProc(), PostMortem(), Procs())
 
 
 PROP = C13()
